@@ -69,7 +69,14 @@ extern "C" void harness(void) {
   OomdContext ctx;
   vf_event(EV_OP, 100, 0, 0, 0);
   for (int j = 0; j < H_K; j++) {
-    int op = (int)vf_nd(K_OP + j, 0, 255);
+#ifdef H_OPS
+    // the operation sequence is concrete per variant (a symbolic choice among drop-in files multiplies the compiler's
+    // paths); base permissions, plugin verdicts and everything downstream stay symbolic
+    static const int kOps[] = H_OPS;
+    const int op = kOps[j];
+#else
+    int op = (int)vf_nd(K_OP + j, 0, 511);
+#endif
     int kind = OP_KIND(op), tag = OP_TAG(op), target = OP_TARGET(op), content = OP_CONTENT(op), hook = OP_HOOK(op);
     vf_assume(target <= H_MAXTARGET && (kind == 1 || content != 0) && hook <= H_HOOKS);
     if (kind == 1) vf_assume(target == 0 && content == 0 && hook == 0);
@@ -78,10 +85,13 @@ extern "C" void harness(void) {
     int ok = 1;
     if (kind == 1) ad.remove(tg);
     else {
+#ifdef H_OPS
+      ok = ad.add(tg, candidate(j, target, content, hook)) ? 1 : 0;
+#else
       ok = -1;
-      // concrete candidate per (target, content, hook); exactly one is applied
       for (int t = 0; t <= H_MAXTARGET; t++) for (int c = 1; c <= 3; c++) for (int h = 0; h <= H_HOOKS; h++)
         if (t == target && c == content && h == hook) ok = ad.add(tg, candidate(j, t, c, h)) ? 1 : 0;
+#endif
     }
     vf_event(EV_OP, j, ok, 0, 0);
     ad.updateDropIns();
